@@ -386,19 +386,12 @@ def conc_cases(ctx):
 
 
 def run_conc(ctx, exe):
-    """conc cases run on the implementation only (the sequential model has nothing to say about overlapping steps beyond
-    'each is atomic'): the predicate is walk() on the driver's answer"""
+    """conc cases: the implementation's answer is compared with the extracted machine of Model/TokensConc.v run under a
+    pseudo-random schedule (Run/ProxySessionRun.v `stress`; the prediction is schedule independent by
+    C16_quiescent_count_schedule_independent / C16_stress_round_count); the predicate is walk() on the driver's answer"""
     cases = conc_cases(ctx)
-    rc, impl, err = vlib.run_impl(exe, [l for l, _ in cases], args=DRIVER_ARGS)
-    if rc != 0 or len(impl) != len(cases):
-        ctx.violation("driver-crash", "implementation driver died (rc=%s) in the concurrent-release cases: %s" % (rc, err[-600:]),
-                      dict(label="proxy-session-concurrent", case=cases[min(len(impl), len(cases) - 1)][0], stderr=err[-2000:]))
-        impl = impl + ["!died"] * (len(cases) - len(impl))
-    for (l, k), r in zip(cases, impl):
-        ctx.count(l, kind=k)
-        bad = prop(l, r, None)
-        if bad:
-            ctx.violation(key_of(l, r, None), bad, dict(label="proxy-session-concurrent", case=l, impl=r[:4000]))
+    ctx.correspond(exe, [l for l, _ in cases], [k for _, k in cases], label="proxy-session-concurrent", prop=guarded_prop(ctx),
+                   key_of=key_of, impl_args=DRIVER_ARGS, crosscheck=0)
     ctx.extra["concurrent_release_cases"] = len(cases)
 
 
@@ -435,7 +428,7 @@ def run(ctx):
     ctx.assumptions += ["model = coq/Model/Tokens.v + coq/Model/ProxySession.v (hand written; V1 = code with proposed-fixes/C16-release-once.diff)",
                         "one data channel per peer connection; a handler can only start between handing the answer to the broker and pc.Close()",
                         "seq cases call tokens.get(); runSession() as Start does; start cases run SnowflakeProxy.Start itself",
-                        "get/ret are atomic steps in the model (C16_slot_accounting); conc cases (op S: n goroutines ret() at one barrier while n others get(), a few hundred rounds, then quiescence and a real poll) observe on the real tokens_t that the counter update is atomic - a stress, not a proof"]
+                        "atomic.AddInt64 and the channel operations are the atomic steps of the model (Model/Tokens.v); overlapping callers are Model/TokensConc.v (any interleaving: C16_counter_exact_under_interleaving, C16_quiescent_count_schedule_independent); conc cases (op S: n goroutines ret() at one barrier while n others get(), a few hundred rounds, then quiescence and a real poll) compare the real tokens_t at its quiescent points with that machine under a pseudo-random schedule (at most 6 of the rounds are run by the model: every round has the same programs) - that the hardware add is atomic is observed by this stress, not proved"]
     slow = slow_cases(ctx)
     procs = start_slow(exe, slow)
     try:
